@@ -8,6 +8,8 @@ From Coq Require Import Permutation.
 From V Require Import Base.Prelude Base.Ints Model.Helper Model.Script Model.Pecc Model.Taproot
   Model.Musig Proofs.GroupHyp Proofs.CurveAlg Proofs.TaprootP Proofs.MusigP Proofs.MusigAlg
   Proofs.MusigLift Proofs.PeccEnc Proofs.ToyCurve.
+From V Require Import Model.Op Model.Interp Model.Verify Proofs.VerifyP Proofs.TapMultisigP Proofs.VerifyTapP
+  Proofs.MusigTreeP Proofs.MusigFinalP Proofs.MusigExtraP Proofs.MusigToy.
 From V Require Dispatch.DC13.
 
 (* (1) Every participant i has a secret d_i in [1, n-1] (so both parities of the public points
@@ -187,6 +189,363 @@ Proof.
               parts msg root H1 H2 H3) as (ms & A & B & _).
   exists ms. split; assumption.
 Qed.
+
+(* ======================================================================================================
+   Deepening: (5) which key sets own a leaf in the generated trees, (6) Tx.initialize_p2tr_multisig /
+   Tx.finalize_p2tr_multisig and the spend of a leaf through the tapscript interpreter of C06,
+   (7) get_signature / the list of partial signatures at the level the user handles them.
+   ====================================================================================================== *)
+
+(* (5a) multi_leaf_tree with pairwise distinct x-only keys: it exists only for 1 <= k <= n, has C(n, k) leaves,
+   they are pairwise different, every k-subset (length-k subsequence of the key list) owns a leaf that no other
+   k-subset owns, and conversely a key list sub' (any length, any threshold k') whose MultiSigTapScript is a leaf
+   of the tree is, as a multiset of x-only keys, one of the k-subsets: no smaller and no larger set owns a leaf *)
+Theorem C13_multi_leaf_tree_every_k_subset_exactly_one_leaf :
+  forall (C : curve) pts k lk t,
+  NoDup (map xonly pts) -> multi_leaf_tree C pts k lk = Ok t ->
+  (1 <= k <= zlen pts) /\
+  length (leaves t) = choose (length pts) (Z.to_nat k) /\
+  NoDup (leaves t) /\
+  (forall sub, subseq sub pts -> length sub = Z.to_nat k ->
+     exists lf, (exists cs, multisig_cmds C lk sub k = Ok cs /\ lf = (192, mk_script cs)) /\
+       In lf (leaves t) /\
+       forall sub', subseq sub' pts ->
+         (exists cs, multisig_cmds C lk sub' k = Ok cs /\ lf = (192, mk_script cs)) -> sub' = sub) /\
+  (forall sub' k' lf, (exists cs, multisig_cmds C lk sub' k' = Ok cs /\ lf = (192, mk_script cs)) ->
+     In lf (leaves t) ->
+     exists sub, subseq sub pts /\ length sub = Z.to_nat k /\
+       (exists cs, multisig_cmds C lk sub k = Ok cs /\ lf = (192, mk_script cs)) /\
+       Permutation (map xonly sub') (map xonly sub)).
+Proof. exact multi_leaf_tree_cover. Qed.
+Print Assumptions C13_multi_leaf_tree_every_k_subset_exactly_one_leaf.
+
+(* the leaf script determines the key set: two key lists with the same MultiSigTapScript commands (same timelock)
+   carry the same multiset of x-only keys *)
+Theorem C13_multisig_script_determines_keys :
+  forall (C : curve) lk sub k sub' k' cs,
+  multisig_cmds C lk sub k = Ok cs -> multisig_cmds C lk sub' k' = Ok cs ->
+  Permutation (map xonly sub) (map xonly sub').
+Proof. exact multisig_cmds_same_keys. Qed.
+Print Assumptions C13_multisig_script_determines_keys.
+
+Theorem C13_combinations_count :
+  forall (A : Type) (pool : list A) (k : nat), length (combos pool k) = choose (length pool) k.
+Proof. intros A pool k. apply combos_length. Qed.
+Print Assumptions C13_combinations_count.
+
+(* (5b) musig_tree: exists only for 2 <= k <= n (MuSig of one key raises), C(n, k) leaves, every k-subset has its
+   aggregate-key leaf in the tree and every leaf is the aggregate-key leaf of a k-subset *)
+Theorem C13_musig_tree_every_k_subset_has_leaf :
+  forall (C : curve) (sha256 : bytes -> bytes) pts k lk t,
+  musig_tree C sha256 pts k lk = Ok t ->
+  (2 <= k <= zlen pts) /\
+  length (leaves t) = choose (length pts) (Z.to_nat k) /\
+  (forall sub, subseq sub pts -> length sub = Z.to_nat k ->
+     exists lf, (exists cs, musig_cmds C sha256 lk sub = Ok cs /\ lf = (192, mk_script cs)) /\ In lf (leaves t)) /\
+  (forall lf, In lf (leaves t) ->
+     exists sub, subseq sub pts /\ length sub = Z.to_nat k /\
+       exists cs, musig_cmds C sha256 lk sub = Ok cs /\ lf = (192, mk_script cs)).
+Proof. exact musig_tree_cover. Qed.
+Print Assumptions C13_musig_tree_every_k_subset_has_leaf.
+
+(* ... but that two different k-subsets have DIFFERENT MuSig leaves is not a consequence of the construction:
+   on the toy curve (15 x coordinates) with a toy hash, four keys with pairwise distinct x-only encodings give a
+   2-of-4 musig_tree with 6 leaves two of which coincide.  On secp256k1 with SHA256 distinctness is a
+   computational property (an aggregate-key collision), established per run by the ktree predicate. *)
+Theorem C13_musig_leaf_distinctness_not_structural :
+  NoDup (map xonly toy_keys) /\
+  exists t, musig_tree toy toy_sha toy_keys 2 NoLock = Ok t /\ length (leaves t) = 6%nat /\ ~ NoDup (leaves t).
+Proof. split; [exact toy_keys_nodup | exact toy_musig_tree]. Qed.
+Print Assumptions C13_musig_leaf_distinctness_not_structural.
+
+(* (5c) the other builders *)
+Theorem C13_single_leaf_what :
+  forall (C : curve) pts k lk t,
+  single_leaf C pts k lk = Ok t <-> exists cs, multisig_cmds C lk pts k = Ok cs /\ t = Leaf 192 (mk_script cs).
+Proof. exact single_leaf_what. Qed.
+Print Assumptions C13_single_leaf_what.
+
+Theorem C13_musig_and_single_leaf_tree_leaves :
+  forall (C : curve) (sha256 : bytes -> bytes) pts k lk t,
+  musig_and_single_leaf_tree C sha256 pts k lk = Ok t ->
+  exists cs b, multisig_cmds C lk pts k = Ok cs /\ musig_tree C sha256 pts k lk = Ok b /\
+    t = Branch (Leaf 192 (mk_script cs)) b /\ leaves t = (192, mk_script cs) :: leaves b.
+Proof. exact musig_and_single_leaf_tree_leaves. Qed.
+Print Assumptions C13_musig_and_single_leaf_tree_leaves.
+
+Theorem C13_everything_tree_leaves :
+  forall (C : curve) (sha256 : bytes -> bytes) pts k lk t,
+  everything_tree C sha256 pts k lk = Ok t ->
+  exists cs b c, multisig_cmds C lk pts k = Ok cs /\ multi_leaf_tree C pts k lk = Ok b /\
+    musig_tree C sha256 pts k lk = Ok c /\
+    t = Branch (Leaf 192 (mk_script cs)) (Branch b c) /\
+    leaves t = (192, mk_script cs) :: leaves b ++ leaves c.
+Proof. exact everything_tree_leaves. Qed.
+Print Assumptions C13_everything_tree_leaves.
+
+(* degrading_multisig_tree: for num = k, k-1, .., 1 and every num-subset, in this order, the num-of-num leaf with
+   the relative timelock of that level (none for num = k) *)
+Theorem C13_degrading_tree_leaves :
+  forall (C : curve) pts k kind interval t,
+  degrading_multisig_tree C pts k kind interval = Ok t ->
+  Forall2 (fun (ns : Z * list point) lf =>
+             exists lk cs, degrading_seq kind interval k (fst ns) = Ok lk /\
+               multisig_cmds C lk (snd ns) (fst ns) = Ok cs /\ lf = (192, mk_script cs))
+          (flat_map (fun num => map (pair num) (combos pts (Z.to_nat num))) (countdown (Z.to_nat k) k))
+          (leaves t) /\
+  degrading_seq kind interval k k = Ok NoLock.
+Proof.
+  intros C pts k kind interval t H. split; [exact (degrading_tree_leaves C pts k kind interval t H)|].
+  apply degrading_seq_top.
+Qed.
+Print Assumptions C13_degrading_tree_leaves.
+
+(* (6a) Tx.initialize_p2tr_multisig: on an empty witness it installs [leaf script, control block] and records the
+   MultiSigTapScript; for a tap script of another type it raises AFTER having replaced the witness; on a non-empty
+   witness it silently does nothing, so that finalize_p2tr_multisig raises "initialize single leaf multisig first" *)
+Theorem C13_initialize_p2tr_multisig :
+  forall cb sc raw cbs tp,
+  raw_serialize sc = Ok raw -> cb_serialize cb = Ok cbs ->
+  (forall pts, init_p2tr_multisig {| ti_items := []; ti_points := tp |} cb sc (Some pts)
+               = Ok ({| ti_items := [raw; cbs]; ti_points := Some pts |}, false)) /\
+  init_p2tr_multisig {| ti_items := []; ti_points := tp |} cb sc None
+    = Ok ({| ti_items := [raw; cbs]; ti_points := tp |}, true) /\
+  (forall st mp, ti_items st <> [] -> init_p2tr_multisig st cb sc mp = Ok (st, false)) /\
+  (forall C sha256 sighash st sigs, (length (ti_items st) < 2)%nat \/ ti_points st = None ->
+     finalize_p2tr_multisig C sha256 sighash st sigs = Err).
+Proof.
+  intros cb sc raw cbs tp H1 H2. split; [intros pts; now apply init_fresh|].
+  split; [now apply init_wrong_type|]. split; [intros st mp; apply init_nonempty|].
+  intros C sha256 sighash st sigs. apply finalize_uninitialised.
+Qed.
+Print Assumptions C13_initialize_p2tr_multisig.
+
+(* (6b) the witness finalize_p2tr_multisig assembles: one slot per key of the leaf in the order of the (sorted)
+   KEYS — the slot of the last key first, i.e. the first key's slot ends on top of the stack — whatever the order
+   of [sigs]; a slot is b"" exactly when no non-empty signature verifies for that key (empty entries of [sigs]
+   are skipped), else it is a member of [sigs] that verifies for it *)
+Theorem C13_finalize_witness_shape :
+  forall (C : curve) (sha256 : bytes -> bytes) (sighash : Z -> result bytes) st sigs pts items',
+  ti_points st = Some pts ->
+  finalize_p2tr_multisig C sha256 sighash st sigs = Ok (items', true) ->
+  (2 <= length (ti_items st))%nat /\
+  exists slots, items' = rev slots ++ ti_items st /\
+    Forall2 (fun P s =>
+       (s = [] /\ forall sg, In sg sigs -> sg <> [] -> fin_check C sha256 sighash P sg = Ok false) \/
+       (s <> [] /\ In s sigs /\ fin_check C sha256 sighash P s = Ok true)) pts slots.
+Proof. exact finalize_shape. Qed.
+Print Assumptions C13_finalize_witness_shape.
+
+(* an entry of a length other than 0, 64, 65 (or an unparsable one, or a hash type sig_hash refuses) that is
+   reached raises, and the slots inserted for the earlier keys stay in the witness *)
+Theorem C13_finalize_raise_leaves_partial_witness :
+  forall (C : curve) (sha256 : bytes -> bytes) (sighash : Z -> result bytes) st sigs pts items',
+  ti_points st = Some pts ->
+  finalize_p2tr_multisig C sha256 sighash st sigs = Ok (items', false) ->
+  exists done P rest slots, pts = done ++ P :: rest /\ items' = rev slots ++ ti_items st /\
+    length slots = length done /\ fin_find C sha256 sighash P sigs = Err /\
+    exists sg, In sg sigs /\ sg <> [] /\ fin_check C sha256 sighash P sg = Err.
+Proof. exact finalize_raise_shape. Qed.
+Print Assumptions C13_finalize_raise_leaves_partial_witness.
+
+(* the order in which the signatures are handed over is irrelevant (when no test raises and no key has two
+   different verifying signatures in the list — then the first one in list order is taken) *)
+Theorem C13_finalize_signature_order_irrelevant :
+  forall (C : curve) (sha256 : bytes -> bytes) (sighash : Z -> result bytes) st sigs sigs' pts,
+  ti_points st = Some pts ->
+  (forall P, In P pts -> forall sg, In sg sigs -> sg <> [] -> fin_check C sha256 sighash P sg <> Err) ->
+  (forall P, In P pts -> forall s1 s2, In s1 sigs -> In s2 sigs -> s1 <> [] -> s2 <> [] ->
+     fin_check C sha256 sighash P s1 = Ok true -> fin_check C sha256 sighash P s2 = Ok true -> s1 = s2) ->
+  Permutation sigs sigs' ->
+  finalize_p2tr_multisig C sha256 sighash st sigs = finalize_p2tr_multisig C sha256 sighash st sigs'.
+Proof. exact finalize_sig_order. Qed.
+Print Assumptions C13_finalize_signature_order_irrelevant.
+
+(* (6c) composition with the tapscript interpreter (Model/Verify.v, C06).  [so] are the signature operations of
+   the interpreter for this transaction: so_xonly_ok = "S256Point.parse_xonly succeeds", so_schnorr = parse_xonly,
+   SchnorrSignature.parse, Tx.sig_hash(hash type), verify_schnorr — the calls of op_checksig(add)_schnorr, with
+   the same sig_hash function as finalize uses.  After initialize + finalize on a k-of-n MultiSigTapScript leaf
+   (n >= 2 keys, no timelock) the leaf script run on the stack built from the assembled witness accepts
+   IFF exactly k keys of the leaf were signed for. *)
+Theorem C13_finalize_then_leaf_script_accepts_iff_k_signed :
+  forall (C : curve) (sha256 : bytes -> bytes) (sighash : Z -> result bytes) (so : sigops),
+  tap_sigops_ok C sha256 sighash so ->
+  forall ripemd160 sha1 hash160 hash256 c w keys k cs pts raw cbs sigs items' r a,
+  (2 <= length keys)%nat -> 1 <= k <= 16 ->
+  multisig_cmds C NoLock keys k = Ok cs ->
+  multisig_points C keys = Ok pts ->
+  finalize_p2tr_multisig C sha256 sighash {| ti_items := [raw; cbs]; ti_points := Some pts |} sigs
+    = Ok (items', true) ->
+  exists slots,
+    items' = rev slots ++ [raw; cbs] /\ length slots = length keys /\
+    rev (firstn (length items' - 2) items') = slots /\
+    Forall2 (fun P s => fin_find C sha256 sighash P sigs = Ok s) pts slots /\
+    Forall2 (sig_slot_ok so) (sort_bytes (map xonly keys)) slots /\
+    ((exists fuel, vloop C ripemd160 sha1 sha256 hash160 hash256 so c w fuel cs (slots ++ r) a (fl_off true) = OTrue)
+     <-> zlen (filter (signed_b C sha256 sighash sigs) pts) = k).
+Proof.
+  intros C sha256 sighash so SO ripemd160 sha1 hash160 hash256 c w.
+  exact (finalize_spend_iff C sha256 sighash so SO ripemd160 sha1 hash160 hash256 c w).
+Qed.
+Print Assumptions C13_finalize_then_leaf_script_accepts_iff_k_signed.
+
+(* what signed_b counts: keys for which some non-empty entry of [sigs] verifies *)
+Theorem C13_signed_b_iff :
+  forall (C : curve) (sha256 : bytes -> bytes) (sighash : Z -> result bytes) P sigs,
+  (forall sg, In sg sigs -> sg <> [] -> fin_check C sha256 sighash P sg <> Err) ->
+  (signed_b C sha256 sighash sigs P = true <->
+   exists sg, In sg sigs /\ sg <> [] /\ fin_check C sha256 sighash P sg = Ok true).
+Proof. exact signed_b_iff. Qed.
+Print Assumptions C13_signed_b_iff.
+
+(* the leaf of a k-subset in multi_leaf_tree is k-of-k: spendable through finalize IFF every key of the subset
+   was signed for — "a spend of that leaf signed by that subset verifies", and no smaller set of signers does *)
+Theorem C13_k_subset_leaf_spend_iff_all_signed :
+  forall (C : curve) (sha256 : bytes -> bytes) (sighash : Z -> result bytes) (so : sigops),
+  tap_sigops_ok C sha256 sighash so ->
+  forall ripemd160 sha1 hash160 hash256 c w keys k cs pts raw cbs sigs items' r a,
+  (2 <= length keys)%nat -> zlen keys = k -> k <= 16 ->
+  multisig_cmds C NoLock keys k = Ok cs ->
+  multisig_points C keys = Ok pts ->
+  (forall P, In P pts -> forall sg, In sg sigs -> sg <> [] -> fin_check C sha256 sighash P sg <> Err) ->
+  finalize_p2tr_multisig C sha256 sighash {| ti_items := [raw; cbs]; ti_points := Some pts |} sigs
+    = Ok (items', true) ->
+  ((exists fuel, vloop C ripemd160 sha1 sha256 hash160 hash256 so c w fuel cs
+                   (rev (firstn (length items' - 2) items') ++ r) a (fl_off true) = OTrue)
+   <-> forall P, In P pts -> exists sg, In sg sigs /\ sg <> [] /\ fin_check C sha256 sighash P sg = Ok true).
+Proof.
+  intros C sha256 sighash so SO ripemd160 sha1 hash160 hash256 c w.
+  exact (finalize_k_of_k_iff C sha256 sighash so SO ripemd160 sha1 hash160 hash256 c w).
+Qed.
+Print Assumptions C13_k_subset_leaf_spend_iff_all_signed.
+
+(* ... and at the level of Tx.verify_input, the value finalize_p2tr_multisig returns: given that the control block
+   commits the leaf to the output key x (C12) and that the serialized leaf script parses back to its commands
+   (C04), exactly k signed keys make verify_input accept the assembled witness *)
+Theorem C13_finalize_then_verify_input :
+  forall (C : curve) (sha256 : bytes -> bytes) (sighash : Z -> result bytes) (so : sigops),
+  tap_sigops_ok C sha256 sighash so ->
+  forall ripemd160 sha1 hash160 hash256 c keys k cs pts raw cbs sigs items' x ts,
+  (2 <= length keys)%nat -> 1 <= k <= 16 ->
+  multisig_cmds C NoLock keys k = Ok cs ->
+  multisig_points C keys = Ok pts ->
+  finalize_p2tr_multisig C sha256 sighash {| ti_items := [raw; cbs]; ti_points := Some pts |} sigs
+    = Ok (items', true) ->
+  length x = 32%nat -> hd 0 cbs <> 80 ->
+  script_path_commit_check C sha256 x items' = Ok true ->
+  witness_tap_script items' = Ok ts -> s_cmds ts = cs ->
+  zlen (filter (signed_b C sha256 sighash sigs) pts) = k ->
+  verify_input C ripemd160 sha1 sha256 hash160 hash256 so c items' [] (p2tr_script x) = OTrue.
+Proof.
+  intros C sha256 sighash so SO ripemd160 sha1 hash160 hash256 c.
+  exact (finalize_verify_input C sha256 sighash so SO ripemd160 sha1 hash160 hash256 c []).
+Qed.
+Print Assumptions C13_finalize_then_verify_input.
+
+(* (7a) whatever get_signature returns verifies under BIP340 for the external key — for ANY s_sum, r, keys:
+   the self-verification is the last step (a seeded change that loses the even-y lift or a sign in the tweak
+   term can only turn valid sessions into exceptions, which C13_musig_sum_verifies excludes) *)
+Theorem C13_get_signature_sound :
+  forall (C : curve) (sha256 : bytes -> bytes) ms s_sum R msg root r s,
+  musig_get_signature C sha256 ms s_sum R msg root = Ok (r, s) ->
+  exists ext, musig_external C sha256 ms root = Ok ext /\
+    schnorr_verify C sha256 ext msg r s = Ok true /\ s < cn C.
+Proof. exact get_signature_sound. Qed.
+Print Assumptions C13_get_signature_sound.
+
+(* (7b) on the LIST of partial signatures: if the sum of the list is accepted then the list with one entry
+   x <> 0 (mod n) left out, or with one entry replaced by a different residue, is refused, and any reordering of
+   the list gives the same signature *)
+Theorem C13_partial_signature_list_tamper :
+  forall (C : curve) (sha256 : bytes -> bytes),
+  scalar_laws C -> cn C <= pow256 32 -> cp C <= pow256 32 ->
+  forall ms R msg root ps sig, valid C (ms_point ms) ->
+  musig_get_signature C sha256 ms (zsum ps) R msg root = Ok sig ->
+  (forall pre x post, ps = pre ++ x :: post -> x mod cn C <> 0 ->
+     musig_get_signature C sha256 ms (zsum (pre ++ post)) R msg root = Err) /\
+  (forall pre x post x', ps = pre ++ x :: post -> x' mod cn C <> x mod cn C ->
+     musig_get_signature C sha256 ms (zsum (pre ++ x' :: post)) R msg root = Err) /\
+  (forall ps', Permutation ps ps' ->
+     musig_get_signature C sha256 ms (zsum ps') R msg root = Ok sig).
+Proof. exact partial_list_tamper. Qed.
+Print Assumptions C13_partial_signature_list_tamper.
+
+(* (7c) "never yields a valid aggregate": with the nonce point of an accepted aggregate signature no other
+   residue s' verifies under BIP340 for the external key *)
+Theorem C13_aggregate_s_unique :
+  forall (C : curve) (sha256 : bytes -> bytes),
+  scalar_laws C -> cp C <= pow256 32 ->
+  forall ms s_sum R msg root r s, valid C (ms_point ms) ->
+  musig_get_signature C sha256 ms s_sum R msg root = Ok (r, s) ->
+  exists ext, musig_external C sha256 ms root = Ok ext /\
+    forall s', schnorr_verify C sha256 ext msg r s' = Ok true -> s' mod cn C = s mod cn C.
+Proof. intros C sha256 SL P256. exact (aggregate_s_unique C sha256 SL P256). Qed.
+Print Assumptions C13_aggregate_s_unique.
+
+(* (7d) key-path spends of a TapRootMultiSig output: signing with merkle_root = tree.hash() targets exactly
+   tree.external_pubkey(aggregate key), the key the p2tr output commits to (C12) *)
+Theorem C13_keypath_external_key :
+  forall (C : curve) (sha256 : bytes -> bytes) ms t root,
+  tree_hash sha256 t = Ok root -> root <> [] ->
+  musig_external C sha256 ms root = tree_external_pubkey C sha256 t (ms_point ms).
+Proof. exact musig_external_of_tree. Qed.
+Print Assumptions C13_keypath_external_key.
+
+(* ---- non-vacuity of (5)–(7) on the toy curve ---- *)
+(* every parity branch of sign / get_signature occurs: (aggregate parity, R parity, external-key parity) takes all
+   eight values with a merkle root and all four (aggregate, R) values without, and every session verifies *)
+Example C13_toy_parity_branches :
+  map (fun '(d, m) => session_parities [(d, (5, 7)); (4, (2, 9)); (10, (1, 30))] [m; 2; 3] [7; 7])
+      [(3, 3); (3, 1); (9, 6); (9, 1); (13, 3); (13, 1); (6, 1); (6, 2)]
+  = [Ok (0, 0, 0, true); Ok (0, 1, 0, true); Ok (0, 0, 1, true); Ok (0, 1, 1, true);
+     Ok (1, 0, 0, true); Ok (1, 1, 0, true); Ok (1, 0, 1, true); Ok (1, 1, 1, true)] /\
+  map (fun '(d, m) => session_parities [(d, (5, 7)); (4, (2, 9)); (10, (1, 30))] [m; 2; 3] [])
+      [(3, 3); (3, 1); (13, 3); (13, 1)]
+  = [Ok (0, 0, 0, true); Ok (0, 1, 0, true); Ok (1, 0, 0, true); Ok (1, 1, 0, true)].
+Proof. exact toy_parity_branches. Qed.
+
+(* a 2-of-4 multi_leaf_tree on the toy curve: the hypotheses of (5a) hold, hence 6 pairwise different leaves *)
+Example C13_toy_multi_leaf_tree :
+  exists t, multi_leaf_tree toy toy_keys 2 NoLock = Ok t /\ length (leaves t) = 6%nat /\ NoDup (leaves t).
+Proof.
+  destruct toy_multi_leaf_tree as [t Ht]. exists t. split; [exact Ht|].
+  destruct (C13_multi_leaf_tree_every_k_subset_exactly_one_leaf toy toy_keys 2 NoLock t toy_keys_nodup Ht)
+    as (_ & Hl & Hn & _). split; [exact Hl | exact Hn].
+Qed.
+
+Example C13_toy_degrading_tree :
+  exists t, degrading_multisig_tree toy toy_keys 2 1 144 = Ok t /\ length (leaves t) = 10%nat.
+Proof. exact toy_degrading_tree. Qed.
+
+(* finalize on a 2-of-3 leaf, signers 3 and 10 (the latter with an explicit hash-type byte), signatures handed over
+   in an order unrelated to the keys, with an empty entry: slots in key order; the reversed list gives the same
+   witness; the hypotheses of the order theorem hold; a 3-byte entry raises after one slot was inserted; and the
+   leaf script accepts the assembled stack (instance of (6c) with the sigops built from the model functions) *)
+Example C13_toy_finalize :
+  multisig_points toy toy_k3 = Ok toy_pts /\
+  finalize_p2tr_multisig toy toy_sha toy_sighash toy_st toy_sigs
+    = Ok ([toy_sig 10 toy_msg1 ++ [1]; toy_sig 3 toy_msg0; []; [1]; [192]], true) /\
+  finalize_p2tr_multisig toy toy_sha toy_sighash toy_st (rev toy_sigs)
+    = finalize_p2tr_multisig toy toy_sha toy_sighash toy_st toy_sigs /\
+  (forall P, In P toy_pts -> no_raise toy toy_sha toy_sighash P toy_sigs) /\
+  (forall P, In P toy_pts -> at_most_one toy toy_sha toy_sighash P toy_sigs) /\
+  finalize_p2tr_multisig toy toy_sha toy_sighash toy_st [toy_sig 4 toy_msg0; [1; 2; 3]]
+    = Ok ([toy_sig 4 toy_msg0; [1]; [192]], false) /\
+  tap_sigops_ok toy toy_sha toy_sighash (the_tap_sigops toy toy_sha toy_sighash).
+Proof.
+  split; [exact toy_points|]. destruct toy_finalize as [A B]. split; [exact A|]. split; [exact B|].
+  split; [exact toy_no_raise|]. split; [exact toy_at_most_one|]. split; [exact toy_finalize_raise|].
+  apply the_tap_sigops_ok.
+Qed.
+
+Example C13_toy_spend_accepted :
+  forall ripemd160 sha1 hash160 hash256 c w r a,
+  exists cs slots fuel,
+    multisig_cmds toy NoLock toy_k3 2 = Ok cs /\
+    slots = [[]; toy_sig 3 toy_msg0; toy_sig 10 toy_msg1 ++ [1]] /\
+    vloop toy ripemd160 sha1 toy_sha hash160 hash256 (the_tap_sigops toy toy_sha toy_sighash) c w fuel cs
+      (slots ++ r) a (fl_off true) = OTrue.
+Proof. exact toy_spend_accepted. Qed.
 
 (* The constants written in the model are the constants of the SOURCE: coq/Generated/SrcConsts.v is regenerated
    from /repo/buidl/*.py by harness/gen_coq_consts.py on every run; the statements are spelled out in
